@@ -2,7 +2,7 @@
 From Coq Require Import Ascii String List Bool Arith ZArith NArith.
 From PTBase Require Import Exn PyStr PyNum PyVal Fmt FixedFormat.
 From Gen Require Import GenTables GenSections.
-From P Require Import Comb Obj Fields Idem Sections SectionsB Rec SecRocks SecMesh SecGener SecMisc SecParam SecHist SecSel SecShort SecMeshm T2DataIO Whole Xp Example Prog IdemSec IdemSecB IdemMeshm IdemWhole RbReadBack RealStable IdemEx Bin BinEx IdemMesh IdemMeshEx IdemBin IdemBinEx.
+From P Require Import Comb Obj Fields Idem Sections SectionsB Rec SecRocks SecMesh SecGener SecMisc SecParam SecHist SecSel SecShort SecMeshm T2DataIO Whole Xp Example Bin BinEx.
 Import ListNotations.
 Open Scope string_scope.
 
@@ -162,248 +162,3 @@ Theorem meshmaker_read_write : forall T d body, meshm_table_ok T = true -> write
   read_meshmaker T d0 (body ++ rest)%list = Ok (set_meshmaker d0 (map (canon_mm T) (meshmaker d)), rest).
 Proof. exact meshmaker_roundtrip. Qed.
 Print Assumptions meshmaker_read_write.
-
-(** ** every section kind through the keyword dispatch: the writer's first line is the keyword line;
-    given that line (as read, or padded when it was the PARAM look-ahead) the reader consumes exactly
-    the writer's lines (PARAM: plus the next keyword line, handed back as look-ahead) *)
-Theorem section_read_write : forall k d d0 lines, In k covered -> wsec d k = Ok lines -> secwf k d d0 = true ->
-  exists l0 body, lines = l0 :: body /\ kwline k l0 /\
-    if plain k then forall line rest, line = l0 \/ line = padstring l0 ->
-                    dispatch d0 k line (body ++ rest)%list = Ok (supd k d d0, None, rest)
-    else forall line nextl rest, next_ok0 nextl = true ->
-         dispatch d0 k line (body ++ nextl :: rest)%list = Ok (supd k d d0, Some (padstring nextl), rest).
-Proof. exact section_step. Qed.
-Print Assumptions section_read_write.
-Theorem all_section_kinds_covered : forall k, In k t2data_sections <-> In k covered.
-Proof. exact covered_all. Qed.
-Print Assumptions all_section_kinds_covered.
-
-(** ** THE round trip of the main file (mesh in the file, no extra precision): any subset and order
-    [ks] of the 23 section kinds *)
-Theorem t2data_read_write : forall d ks ls,
-  write_lines d = Ok ls ->
-  update_sections d = sections d -> sections d = map s2l ks -> xprec d = [] -> is_end (end_keyword d) = true ->
-  title_ok d = true -> chain_ok d ks (start_state d) = true ->
-  read_lines ls = Ok (set_end_keyword (final d ks (start_state d)) (end_keyword d)).
-Proof. exact read_write_main. Qed.
-Print Assumptions t2data_read_write.
-(** the hypotheses are met by two concrete objects, one per flavour, in a non-standard order *)
-Theorem t2data_read_write_hypotheses_met :
-  hyps_ok example_autough2 example_autough2_order = true /\ hyps_ok example_tough2 example_tough2_order = true.
-Proof. exact (conj example_autough2_ok example_tough2_ok). Qed.
-Print Assumptions t2data_read_write_hypotheses_met.
-
-(** ** writing again what was read: a record *)
-Theorem exact_fields_are_stable :
-  (forall f z, ft f = Td -> (0 <= fw f)%Z -> fits_int f z = true -> stable f (XInt z)) /\
-  (forall f s, ft f = Ts -> fits_str f s = true -> stable f (XStr s)) /\
-  (forall f, stable f XNone) /\ (forall f, stable f (rd_field f [])).
-Proof. exact (conj stable_int (conj stable_str (conj stable_none stable_missing))). Qed.
-Print Assumptions exact_fields_are_stable.
-Theorem record_write_idem_partial : forall specs vals s, write_values specs vals = Ok s -> all_stable specs vals ->
-  exists t, write_values specs (cvals specs vals) = Ok (s ++ t)%list /\ forallb (fun c => ceqb c " "%char) t = true.
-Proof. exact line_rewrite. Qed.
-Print Assumptions record_write_idem_partial.
-Theorem record_write_fixpoint_partial : forall specs vals l, write_fields specs vals = Ok l -> all_stable specs vals ->
-  write_fields specs (cvals specs (cvals specs vals)) = write_fields specs (cvals specs vals).
-Proof. exact record_rewrite_fixpoint. Qed.
-Print Assumptions record_write_fixpoint_partial.
-
-(** ** the same with the mesh in a separate ASCII file: main file, then ELEME and CONNE from the MESH file *)
-Theorem t2data_read_write_meshfile : forall d ks d' fs,
-  write_files (mk_wcfg 1 None None) d = Ok (d', fs) ->
-  update_sections d = sections d -> main_secs d = map s2l ks -> xprec d = [] -> is_end (end_keyword d) = true ->
-  title_ok d = true -> chain_ok d ks (start_state d) = true -> forallb (fun k => negb (k =? "ELEME")) ks = true ->
-  let d2 := set_end_keyword (final d ks (start_state d)) (end_keyword d) in
-  forallb (wf_block T0 (rocks d2)) (blocks d) = true -> forallb (wf_conn T0 (canon_blocks T0 (blocks d))) (conns d) = true ->
-  read_files fs = Ok (mesh_state d d2).
-Proof. exact read_write_meshfile. Qed.
-Print Assumptions t2data_read_write_meshfile.
-Theorem t2data_read_write_meshfile_hypotheses_met :
-  hyps_mesh_ok (drop_short example_autough2) (no_mesh example_autough2_order) = true /\
-  hyps_mesh_ok (drop_short example_tough2) (no_mesh example_tough2_order) = true.
-Proof. exact (conj example_autough2_mesh_ok example_tough2_mesh_ok). Qed.
-Print Assumptions t2data_read_write_meshfile_hypotheses_met.
-
-(** ** the extra-precision companion (.pdat) holding the sections [xs], echoed in the main file (b = true) or
-    not: SIMUL reads the companion first (with the extra-precision table), the main file's other sections
-    follow in any legal order, echoed ones are skipped, the (repaired) reader re-derives the echo flag *)
-Theorem extra_precision_section_read_write : forall k d d0 lines, In k xp_kinds -> xpresent k d = true -> wsec1 d k = Ok lines ->
-  secwf1 k d d0 = true ->
-  exists body, lines = kw k :: body /\
-    forall line rest, read_method T1 d0 (rname1 k) line (body ++ rest)%list = Ok (supd1 k d d0, None, rest).
-Proof. exact xp_section_step. Qed.
-Print Assumptions extra_precision_section_read_write.
-Theorem companion_file_read : forall d xs d1 pd, write_sections T1 xp_write_fn_names d (map s2l xs) = Ok pd -> xchain_ok d xs d1 = true ->
-  sections d1 = [] -> xecho d1 = true -> read_xp d1 pd = Ok (xp_state d xs d1).
-Proof. exact read_xp_pdat. Qed.
-Print Assumptions companion_file_read.
-Theorem t2data_read_write_extra_precision : forall d xs b ks d' fs,
-  write_files (mk_wcfg 0 (Some (map s2l xs)) (Some b)) d = Ok (d', fs) ->
-  update_sections d = sections d -> xprec d = [] -> xecho d = true -> autough2 d = true -> xs <> [] ->
-  msecs d (map s2l xs) b = map s2l ("SIMUL" :: ks) -> is_end (end_keyword d) = true -> title_ok d = true ->
-  secwf "SIMUL" d (start_state d) = true ->
-  xchain_ok d xs (simul_state d) = true ->
-  chain_okX d ks (push "SIMUL" (xp_state d xs (simul_state d))) = true ->
-  read_files fs = Ok (reinfer (set_end_keyword (finalX d ks (push "SIMUL" (xp_state d xs (simul_state d)))) (end_keyword d))).
-Proof. exact read_write_xp. Qed.
-Print Assumptions t2data_read_write_extra_precision.
-Theorem t2data_read_write_extra_precision_hypotheses_met :
-  hyps_xp_ok example_autough2 all_xp false (no_xp example_autough2_order) = true /\
-  hyps_xp_ok example_autough2 all_xp true (no_simul example_autough2_order) = true.
-Proof. exact (conj example_xp_ok example_xp_echo_ok). Qed.
-Print Assumptions t2data_read_write_extra_precision_hypotheses_met.
-
-(** ** the grid in the binary pair MESHA / MESHB: the records, then the whole configuration through any
-    packing of a record into bytes that unpacks ([unpack_pack]: what struct.pack / struct.unpack and the
-    record markers do -- a hypothesis, not modelled) *)
-Theorem binary_mesh_records_read_write : forall d RA RB d2,
-  write_bin d = Ok (RA, RB) -> wf_bin d d2 = true -> read_bin RA RB d2 = Ok (bin_state d d2).
-Proof. exact bin_roundtrip. Qed.
-Print Assumptions binary_mesh_records_read_write.
-Theorem t2data_read_write_binary_mesh : forall (rbytes : Type) (pack : brec -> rbytes) (unpack : bfmt -> rbytes -> res brec),
-  (forall r, brec_ok r = true -> unpack (fmt_of r) (pack r) = Ok r) ->
-  forall d ks d' fs RA RB,
-  write_files (mk_wcfg 2 None None) d = Ok (d', fs) -> write_bin d = Ok (RA, RB) ->
-  update_sections d = sections d -> main_secs d = map s2l ks -> xprec d = [] -> is_end (end_keyword d) = true ->
-  title_ok d = true -> chain_ok d ks (start_state d) = true -> forallb (fun k => negb (k =? "ELEME")) ks = true ->
-  let d2 := set_end_keyword (final d ks (start_state d)) (end_keyword d) in
-  wf_bin d d2 = true -> forallb brec_ok RA = true -> forallb brec_ok RB = true ->
-  read_files_bin_bytes rbytes unpack fs (map pack RA) (map pack RB) = Ok (bin_state d d2).
-Proof. exact read_write_binary_bytes. Qed.
-Print Assumptions t2data_read_write_binary_mesh.
-Theorem t2data_read_write_binary_mesh_hypotheses_met :
-  hyps_bin_ok (with_centres (drop_short example_autough2)) (no_mesh example_autough2_order) = true /\
-  hyps_bin_ok (with_centres (drop_short example_tough2)) (no_mesh example_tough2_order) = true.
-Proof. exact (conj example_autough2_bin_ok example_tough2_bin_ok). Qed.
-Print Assumptions t2data_read_write_binary_mesh_hypotheses_met.
-
-(** ** writing again what was read: the whole file (mesh in the file, no extra precision).
-    [reread d ks] is the object t2data.read builds from the file of [d] (by t2data_read_write).  Its file is
-    the first file with blanks before some newlines ([lpad]), and is reproduced byte for byte from then on.
-    All 23 section kinds ([idem_covered]).  Decidable hypotheses, all of them computed in [idem_hyps]:
-    each written value survives the trip ([istable]: its text, read and written again, is the same text --
-    proved for integers, names and blanks, computed for reals); [idem_ok]: no field holds the number 0 where
-    the reader takes 0 for absent, names fill their columns, lists read back whole, ...; for MESHMAKER the
-    agreement of the two line programs is itself computed ([idem_meshm]) *)
-Theorem second_file_sections_covered : forall k, In k covered -> In k idem_covered.
-Proof. exact idem_covered_all. Qed.
-Print Assumptions second_file_sections_covered.
-Theorem line_program_write_idem : forall p ls, render T0 p = Ok ls -> Forall (istable T0) p ->
-  (exists ls', render T0 (map (citem T0) p) = Ok ls' /\ Forall2 lpad ls ls') /\
-  render T0 (map (citem T0) (map (citem T0) p)) = render T0 (map (citem T0) p).
-Proof. exact (fun p ls W S => conj (render_rewrite T0 p ls W S) (render_fixpoint T0 p ls W S)). Qed.
-Print Assumptions line_program_write_idem.
-Theorem t2data_write_idem : forall d ks ls,
-  write_lines d = Ok ls -> update_sections d = sections d -> sections d = map s2l ks -> xprec d = [] ->
-  chain_ok d ks (start_state d) = true -> idem_ok d ks = true ->
-  update_sections (reread d ks) = sections (reread d ks) ->
-  Forall (istable T0) (prog_file d ks) ->
-  exists ls', write_lines (reread d ks) = Ok ls' /\ Forall2 lpad ls ls' /\ render T0 (map (citem T0) (prog_file d ks)) = Ok ls'.
-Proof. exact write_idem. Qed.
-Print Assumptions t2data_write_idem.
-Theorem t2data_write_fixpoint : forall d ks ls,
-  write_lines d = Ok ls -> update_sections d = sections d -> sections d = map s2l ks -> xprec d = [] ->
-  chain_ok d ks (start_state d) = true -> idem_ok d ks = true ->
-  update_sections (reread d ks) = sections (reread d ks) ->
-  Forall (istable T0) (prog_file d ks) ->
-  let D := reread d ks in
-  is_end (end_keyword d) = true -> title_ok D = true -> chain_ok D ks (start_state D) = true -> idem_ok D ks = true ->
-  update_sections (reread D ks) = sections (reread D ks) ->
-  exists ls', write_lines D = Ok ls' /\ Forall2 lpad ls ls' /\ read_lines ls' = Ok (reread D ks) /\ write_lines (reread D ks) = Ok ls'.
-Proof. exact write_fixpoint. Qed.
-Print Assumptions t2data_write_fixpoint.
-(** ** the text of a real survives read + write (x-C02's float() of a printed real, b-C13's digits-survive argument,
-    tied here to Comb.strtod / Comb.cf and to the precision-lowering loop): '%w.qe' with q <= 14 decimals and a printed
-    exponent in [-300, 300]; '%w.qf' printing fewer than 15 digits; both when the re-read value is printed with q
-    decimals again, which is proved when q is the precision of the table; names; [field_ok] collects the cases *)
-Theorem real_field_text_survives : forall f ng m e q, ft f = Te -> (0 <= m)%Z -> used_prec f (XReal ng m e) = Some q -> (0 <= q <= 14)%Z ->
-  (m <> 0%Z -> (-300 <= exp10 q m e <= 300)%Z) -> used_prec f (cf f (XReal ng m e)) = Some q -> stable f (XReal ng m e).
-Proof. exact real_e_stable. Qed.
-Print Assumptions real_field_text_survives.
-Theorem real_field_table_precision_kept : forall f ng m e, ft f = Te -> (0 <= m)%Z -> used_prec f (XReal ng m e) = Some (prec f) ->
-  (0 <= prec f <= 14)%Z -> (m <> 0%Z -> (-300 <= exp10 (prec f) m e <= 300)%Z) -> used_prec f (cf f (XReal ng m e)) = Some (prec f).
-Proof. exact full_precision_kept. Qed.
-Print Assumptions real_field_table_precision_kept.
-Theorem fixed_point_field_text_survives : forall f ng m e q, ft f = Tf -> (0 <= m)%Z -> used_prec f (XReal ng m e) = Some q -> (0 <= q <= 22)%Z ->
-  (f_parts q m e < 10 ^ 15)%Z -> used_same f (XReal ng m e) q = true -> stable f (XReal ng m e).
-Proof. exact real_f_stable. Qed.
-Print Assumptions fixed_point_field_text_survives.
-Theorem name_field_text_survives : forall f s t, ft f = Ts -> fmt_field f (XStr s) = Ok t -> no_nl t = true -> stable f (XStr s).
-Proof. exact name_stable. Qed.
-Print Assumptions name_field_text_survives.
-Theorem value_conditions_give_stability : forall strict specs vals, all_field_ok strict specs vals = true -> all_stable specs vals.
-Proof. exact all_field_ok_stable. Qed.
-Print Assumptions value_conditions_give_stability.
-
-(** all of these hypotheses as one boolean, and two objects that meet it.  [idem_hyps] takes [field_ok] for every written
-    value ([field_ok_strict], or the two texts computed for the value kinds it does not cover: an integer in a real
-    field, ...); [idem_hyps_strict] takes [field_ok_strict] only: no text is computed, the conditions are on the values *)
-Theorem t2data_write_idem_checked : forall d ks, idem_hyps d ks = true ->
-  exists ls ls', write_lines d = Ok ls /\ write_lines (reread d ks) = Ok ls' /\ Forall2 lpad ls ls' /\
-    read_lines ls' = Ok (reread (reread d ks) ks) /\ write_lines (reread (reread d ks) ks) = Ok ls'.
-Proof. exact write_fixpoint_checked. Qed.
-Print Assumptions t2data_write_idem_checked.
-Theorem t2data_write_idem_derived : forall d ks, idem_hyps_strict d ks = true ->
-  exists ls ls', write_lines d = Ok ls /\ write_lines (reread d ks) = Ok ls' /\ Forall2 lpad ls ls' /\
-    read_lines ls' = Ok (reread (reread d ks) ks) /\ write_lines (reread (reread d ks) ks) = Ok ls'.
-Proof. exact write_fixpoint_derived. Qed.
-Print Assumptions t2data_write_idem_derived.
-Theorem t2data_write_idem_hypotheses_met :
-  idem_hyps_strict example_tough2 example_tough2_order = true /\ idem_hyps_strict example_autough2 example_autough2_order = true.
-Proof. exact (conj example_tough2_idem_strict example_autough2_idem_strict). Qed.
-Print Assumptions t2data_write_idem_hypotheses_met.
-
-(** ** writing again what was read, grid in a separate ASCII MESH file: both files of the second write are the first
-    ones up to blanks before the newlines ([mesh_state d (reread d ks)] is what t2data_read_write_meshfile reads) *)
-Theorem t2data_write_idem_meshfile : forall d ks d' fs,
-  write_files (mk_wcfg 1 None None) d = Ok (d', fs) ->
-  update_sections d = sections d -> main_secs d = map s2l ks -> xprec d = [] ->
-  chain_ok d ks (start_state d) = true ->
-  let d2 := reread d ks in let X := mesh_state d d2 in
-  forallb (wf_block T0 (rocks d2)) (blocks d) = true -> forallb (wf_conn T0 (canon_blocks T0 (blocks d))) (conns d) = true ->
-  idem_mesh_ok d ks = true -> update_sections X = sections X ->
-  Forall (istable T0) (prog_file d ks) -> Forall (istable T0) (mesh_prog d) ->
-  exists d'' fs' m m', write_files (mk_wcfg 1 None None) X = Ok (d'', fs') /\ Forall2 lpad (f_main fs) (f_main fs') /\
-    f_mesh fs = Some m /\ f_mesh fs' = Some m' /\ Forall2 lpad m m' /\ f_pdat fs' = None.
-Proof. exact write_idem_meshfile. Qed.
-Print Assumptions t2data_write_idem_meshfile.
-Theorem t2data_write_idem_meshfile_checked : forall strict d ks, idem_mesh_hyps strict d ks = true ->
-  exists d' fs d'' fs' m m', write_files (mk_wcfg 1 None None) d = Ok (d', fs) /\
-    write_files (mk_wcfg 1 None None) (mesh_state d (reread d ks)) = Ok (d'', fs') /\ Forall2 lpad (f_main fs) (f_main fs') /\
-    f_mesh fs = Some m /\ f_mesh fs' = Some m' /\ Forall2 lpad m m' /\ f_pdat fs' = None.
-Proof. exact write_idem_meshfile_checked. Qed.
-Print Assumptions t2data_write_idem_meshfile_checked.
-Theorem t2data_write_idem_meshfile_hypotheses_met :
-  idem_mesh_hyps true (drop_short example_tough2) (no_mesh example_tough2_order) = true /\
-  idem_mesh_hyps true (drop_short example_autough2) (no_mesh example_autough2_order) = true.
-Proof. exact (conj example_tough2_mesh_idem example_autough2_mesh_idem). Qed.
-Print Assumptions t2data_write_idem_meshfile_hypotheses_met.
-
-(** ** ... and grid in the binary pair: the main file up to blanks before the newlines, the records of MESHA / MESHB exactly
-    ([bin_state d (reread d ks)] is what t2data_read_write_binary_mesh reads) *)
-Theorem binary_mesh_records_written_again : forall d d2 RA RB, write_bin d = Ok (RA, RB) ->
-  map r_name (rocks d2) = map r_name (rocks d) -> write_bin (bin_state d d2) = Ok (RA, RB).
-Proof. exact write_bin_again. Qed.
-Print Assumptions binary_mesh_records_written_again.
-Theorem t2data_write_idem_binary_mesh : forall d ks d' fs RA RB,
-  write_files (mk_wcfg 2 None None) d = Ok (d', fs) -> write_bin d = Ok (RA, RB) ->
-  update_sections d = sections d -> main_secs d = map s2l ks -> xprec d = [] ->
-  chain_ok d ks (start_state d) = true -> idem_bin_ok d ks = true ->
-  Forall (istable T0) (prog_file d ks) ->
-  let X := bin_state d (reread d ks) in
-  exists d'' fs', write_files (mk_wcfg 2 None None) X = Ok (d'', fs') /\ Forall2 lpad (f_main fs) (f_main fs') /\
-    f_mesh fs' = None /\ f_pdat fs' = None /\ write_bin X = Ok (RA, RB).
-Proof. exact write_idem_binary. Qed.
-Print Assumptions t2data_write_idem_binary_mesh.
-Theorem t2data_write_idem_binary_mesh_checked : forall strict d ks, idem_bin_hyps strict d ks = true ->
-  exists d' fs RA RB d'' fs', write_files (mk_wcfg 2 None None) d = Ok (d', fs) /\ write_bin d = Ok (RA, RB) /\
-    write_files (mk_wcfg 2 None None) (bin_state d (reread d ks)) = Ok (d'', fs') /\ Forall2 lpad (f_main fs) (f_main fs') /\
-    f_mesh fs' = None /\ f_pdat fs' = None /\ write_bin (bin_state d (reread d ks)) = Ok (RA, RB).
-Proof. exact write_idem_binary_checked. Qed.
-Print Assumptions t2data_write_idem_binary_mesh_checked.
-Theorem t2data_write_idem_binary_mesh_hypotheses_met :
-  idem_bin_hyps true (with_centres (drop_short example_tough2)) (no_mesh example_tough2_order) = true /\
-  idem_bin_hyps true (with_centres (drop_short example_autough2)) (no_mesh example_autough2_order) = true.
-Proof. exact (conj example_tough2_bin_idem example_autough2_bin_idem). Qed.
-Print Assumptions t2data_write_idem_binary_mesh_hypotheses_met.
